@@ -1,5 +1,5 @@
 (* InvAsk: preservation of the invariant by the ask-side operations and by configuration changes. *)
-From ATS Require Import Prelude Dec DecFacts Uuid Semver Types Contract Tactics Spec Inv.
+From ATS Require Import Prelude Dec DecFacts Uuid Semver Types Contract Tactics Spec ExactFacts Inv.
 Ltac Zify.zify_post_hook ::= Z.div_mod_to_equations.
 
 Lemma uuid_canonical_valid s : uuid_canonical s = true -> uuid_valid s = true.
@@ -14,12 +14,14 @@ Proof. intros [Hc Hv Ha Hna] Hnd Hm. constructor; cbn; auto. Qed.
 Lemma InvA_set_bids st m : InvA st -> InvA (set_bids st m).
 Proof. intros [Hc Hv Ha Hna]. constructor; cbn; auto. Qed.
 Lemma InvB_set_asks st m : InvB st -> InvB (set_asks st m).
-Proof. intros [Hb Hnb]. constructor; cbn; auto. Qed.
+Proof. intros [Hb Hnb Hp]. constructor; cbn; auto. Qed.
 Lemma InvB_set_bids st m :
   InvB st -> keys_nodup m ->
   (forall c k s, st_cfg st = Some c -> lookup k m = Some s -> exists b, s = SlotV3 b /\ bid_ok c k b) ->
+  (forall c k b p, st_cfg st = Some c -> lookup k m = Some (SlotV3 b) -> dec_parse (b_price b) = Some p ->
+                   within_precision p (cf_precision c)) ->
   InvB (set_bids st m).
-Proof. intros [Hb Hnb] Hnd Hm. constructor; cbn; auto. Qed.
+Proof. intros [Hb Hnb Hp] Hnd Hm Hpm. constructor; cbn; auto. Qed.
 
 Lemma ask_ok_after c k a size' :
   ask_ok c k a -> 1 <= size' -> ask_ok c k (ask_after a size').
@@ -47,17 +49,24 @@ Proof.
 Qed.
 Lemma InvB_remove_bid st k : InvB st -> InvB (set_bids st (remove k (st_bids st))).
 Proof.
-  intros HI. apply InvB_set_bids; [exact HI|apply nodup_remove; apply HI|].
-  intros c k' a Hc Hl. rewrite lookup_remove in Hl. destruct (String.eqb k' k); [discriminate|].
-  eapply inv_bids; eauto.
+  intros HI. apply InvB_set_bids; [exact HI|apply nodup_remove; apply HI| |].
+  - intros c k' a Hc Hl. rewrite lookup_remove in Hl. destruct (String.eqb k' k); [discriminate|].
+    eapply inv_bids; eauto.
+  - intros c k' b p Hc Hl Hp. rewrite lookup_remove in Hl. destruct (String.eqb k' k); [discriminate|].
+    eapply inv_prec; eauto.
 Qed.
 Lemma InvB_insert_bid st k b :
-  InvB st -> (forall c, st_cfg st = Some c -> bid_ok c k b) -> InvB (set_bids st (insert k (SlotV3 b) (st_bids st))).
+  InvB st -> (forall c, st_cfg st = Some c -> bid_ok c k b) ->
+  (forall c p, st_cfg st = Some c -> dec_parse (b_price b) = Some p -> within_precision p (cf_precision c)) ->
+  InvB (set_bids st (insert k (SlotV3 b) (st_bids st))).
 Proof.
-  intros HI Hok. apply InvB_set_bids; [exact HI|apply nodup_insert; apply HI|].
-  intros c k' s Hc Hl. rewrite lookup_insert in Hl. destruct (String.eqb_spec k' k) as [->|Hne].
-  - injection Hl as <-. eauto.
-  - eapply inv_bids; eauto.
+  intros HI Hok Hwp. apply InvB_set_bids; [exact HI|apply nodup_insert; apply HI| |].
+  - intros c k' s Hc Hl. rewrite lookup_insert in Hl. destruct (String.eqb_spec k' k) as [->|Hne].
+    + injection Hl as <-. eauto.
+    + eapply inv_bids; eauto.
+  - intros c k' b' p Hc Hl Hp. rewrite lookup_insert in Hl. destruct (String.eqb_spec k' k) as [->|Hne].
+    + injection Hl as <-. eauto.
+    + eapply inv_prec; eauto.
 Qed.
 
 (* ---- cancel_ask ---- *)
@@ -113,9 +122,10 @@ Proof.
     + exists c'. split; [reflexivity|]. destruct Hok as (H1 & H2 & H3 & H4 & H5 & H6). unfold cfg_ok. cbn.
       repeat split; auto. unfold opt_list. destruct (m_executors m) as [l|] eqn:El; [|exact H4]. apply (Hex l eq_refl).
     + intros c2 k a Hc2 Hl. injection Hc2 as <-. eapply ask_ok_market; [exact Hm|]. eapply Ha; eauto.
-  - intros [Hb Hnb]. constructor; cbn [set_cfg st_cfg st_ver st_asks st_bids]; auto.
-    intros c2 k s Hc2 Hl. injection Hc2 as <-. destruct (Hb c k s Hc Hl) as (b & -> & Hbok).
-    exists b. split; [reflexivity|]. eapply bid_ok_market; eauto.
+  - intros [Hb Hnb Hp]. constructor; cbn [set_cfg st_cfg st_ver st_asks st_bids]; auto.
+    + intros c2 k s Hc2 Hl. injection Hc2 as <-. destruct (Hb c k s Hc Hl) as (b & -> & Hbok).
+      exists b. split; [reflexivity|]. eapply bid_ok_market; eauto.
+    + intros c2 k b p Hc2 Hl Hpp. injection Hc2 as <-. unfold c'. cbn [cf_precision]. exact (Hp c k b p Hc Hl Hpp).
 Qed.
 
 (* ---- create_ask ---- *)
